@@ -1,6 +1,7 @@
 """C15 — gradual calculators obey the iterator protocol."""
 from vlib import *
 import m_grad
+import m_gperf
 from c02 import TB, ASSUME
 
 
@@ -12,9 +13,12 @@ def run(chk):
         chk.broken_obligation("build", "harness does not build against /repo: " + blog)
         return
     m_grad.run(chk, binary, 320 if quick else 3000, 40 if quick else 120, [m_grad.oracle_c15])
+    # the performance iterators' half of the protocol (nth/last process min(n+1, remaining), None iff
+    # nothing remains; also for a Difficulty that already carries passed_objects)
+    m_gperf.run(chk, binary, 300 if quick else 2000, 30 if quick else 100)
     chk.cov["rule"] = ("G1+G2 maps x G5 settings; per map plain iteration (len after every next, calls after exhaustion) "
                        "and 3 random op sequences over {next, nth(k), len} with k in {0,1,2,random,total-1,total,usize::MAX}, "
                        "each compared with a reference iterator over the one-shot values and with the Coq machine; "
-                       "non-trivial = at least 2 countable objects")
+                       "non-trivial = at least 2 countable objects; plus the gradual performance op sequences of C03 (next/nth/last)")
     chk.cov["trusted_base"] = TB
     chk.assumptions += ASSUME + ["std adaptors (skip, step_by, zip, collect) are defined from next/nth/size_hint"]
